@@ -235,6 +235,35 @@ CATALOGUE = {
     "optional-field-nil": ["class O {", "\tf: int?", "\tconstructor(self) {", "\t\tself.f = nil", "\t}", "}", "oo = O()", "print typeof oo.f", "print oo.f"],
 }
 
+# results of the built-in methods: typeof of the call vs the kind of what it returns, for every numeric method on three receivers of every kind with every
+# argument of C14's tables, and every string method on four receivers (the cells are C14's; C14 judges the VALUE, this layer the KIND against typeof)
+def _builtin_result_entries():
+    from . import c14
+    chk = c14.C14()
+    seen_n, out = {}, {}
+    for k, v, m, a, expr, e in c14.num_cases():
+        if v != v or v in (float("inf"), float("-inf")) or e is c14.Undefined:
+            continue          # (cells outside a method's domain must fail - C14 judges that; this layer looks at the kind of what IS returned)
+        key = (k, m)
+        seen_n.setdefault(key, [])
+        if v not in seen_n[key] and len(seen_n[key]) >= 3:
+            continue
+        if v not in seen_n[key]:
+            seen_n[key].append(v)
+        lines, ex, _ = chk.cell_lines(("n", k, v, m, a))
+        out[f"builtin-result-{k}-{v!r}-{m}-{a}"] = lines[:-2] + [f"print typeof ({ex})", f"print {ex}"]
+    for srecv in ("", "a", "héllo", "12"):
+        for s_, m, a, expr, e in c14.str_cases():
+            if s_ != srecv or "@" in m or e is c14.Undefined:
+                continue
+            lines, ex, _ = chk.cell_lines(("s", s_, m, a))
+            out[f"builtin-result-str-{s_!r}-{m}-{a}"] = lines[:-2] + [f"print typeof ({ex})", f"print {ex}"]
+    return out
+
+
+BUILTIN_RESULTS = _builtin_result_entries()
+CATALOGUE.update(BUILTIN_RESULTS)
+
 # from-loops over every combination of numeric kinds: start x end x step (absent, or of a kind) x counter (fresh, or an existing variable of a kind),
 # observed in the first iteration (before any step was added), after a break in the first iteration and after a loop whose range is empty
 _FK = {"int": ("0", "2", "1", "7"), "bigint": ("B0", "B2", "B1", "B7"), "float": ("0.0", "2.0", "0.5", "9.5"), "byte": ("0b0", "0b10", "0b1", "0b111")}
@@ -429,9 +458,10 @@ class C02(Check):
         b = [("compat", pos, t1, t2) for pos in ("init", "reassign", "arg", "ret", "push", "mapval", "field", "or")
              for t1 in ts for t2 in ts]
         c1 = [("ret", i, form) for form in RET_FORMS for i in range(len(skeletons(1)))]
-        d = [("cat", name) for name in CATALOGUE]
+        d = [("cat", name) for name in CATALOGUE if name not in BUILTIN_RESULTS]
+        bres = [("cat", name) for name in BUILTIN_RESULTS]
         tr = self.tree_cases()
-        ls = [("Ld-catalogue", d), ("La-unary", u), ("La-operator-table", a), ("La2-operator-table-inside-a-function", [c + ("@fn",) for c in u + a]),
+        ls = [("Ld-catalogue", d), ("Lk-results-of-built-in-methods-typeof-vs-kind", bres), ("La-unary", u), ("La-operator-table", a), ("La2-operator-table-inside-a-function", [c + ("@fn",) for c in u + a]),
               ("Lb-compatibility", b), ("Lb2-compatibility-inside-a-function", [c + ("@fn",) for c in b]),
               ("Lb3-re-assignment-from-a-nested-block-of-a-function", [c + ("@fnblk",) for c in b if c[1] == "reassign"]),
               ("Lc-return-paths-depth1", c1),
